@@ -40,6 +40,12 @@ void TransformedOracle::evalInterval(Interval& out)
 
     underlying->set(rangeLower, rangeUpper);
     underlying->evalInterval(out);
+
+    // A coordinate that may be NaN makes the result possibly NaN
+    if (!xRange.isSafe() || !yRange.isSafe() || !zRange.isSafe())
+    {
+        out = Interval(out.lower(), out.upper(), true);
+    }
 }
 
 void TransformedOracle::evalPoint(float& out, size_t index)
